@@ -26,7 +26,7 @@ def meta(tier):
         assumptions=["names differ from Fortran keywords and intrinsic function names (gen.KEYWORDS + Intrinsic_Name.function_names)",
                      "labels in one program are distinct; label holes have no leading zero",
                      "the rule registry of ParserFactory.create(std) is cached per process and swapped in (validated by native witness replay, which calls create())"],
-        budget_s=400 if q else 1500, unit_budget_s=60 if q else 300)
+        budget_s=400 if q else 1200, unit_budget_s=60 if q else 300)
 
 
 def with_comments(src):
